@@ -322,6 +322,7 @@ pub struct W {
     inc_no: u32,
     hstate: Vec<HState>,
     delivered_order: Vec<usize>,
+    delivered_at: BTreeMap<usize, u64>,
     vtime_ms: u64,
     advances: u32,
     height_events: u32,
@@ -1354,7 +1355,10 @@ impl W {
             if live || rpc_pending || m.funded_at.is_some() {
                 continue;
             }
-            if let Some(t0) = m.last_answer_ms {
+            // reference instant: the last RPC answer the plugin got about this hash; if it never asked anything
+            // (and nothing is pending, checked above) the plugin "began waiting" when the oldest held HTLC arrived
+            let oldest_delivery = held.iter().filter_map(|t| self.delivered_at.get(t).copied()).min();
+            if let Some(t0) = m.last_answer_ms.or(oldest_delivery) {
                 // every held HTLC of this hash was delivered before now; the plugin read the state at t0 (or later answers)
                 let first_delivery_before = true;
                 if first_delivery_before && self.vtime_ms >= t0 + cfg.mpp_timeout_ms {
@@ -1515,6 +1519,7 @@ impl W {
                 inc.tasks.push((*t, h, polls));
                 self.hstate[*t] = HState::Held { inc: self.inc_no };
                 self.delivered_order.push(*t);
+                self.delivered_at.insert(*t, self.vtime_ms);
                 self.after_event(ev);
             }
             Ev::Advance(ms) => {
@@ -1742,6 +1747,7 @@ impl Model for W {
             inc_no: 0,
             hstate: vec![HState::Undelivered; cfg.templates.len()],
             delivered_order: Vec::new(),
+            delivered_at: BTreeMap::new(),
             vtime_ms: 0,
             advances: 0,
             height_events: 0,
@@ -2023,9 +2029,20 @@ impl W {
         let amount = inv0.amount_msat.unwrap_or(1_000_000);
         let need = cfg.required(amount) as u64;
         let mut outcomes = Vec::new();
-        let mut ok = false;
+        // two phases: the same incarnation that lived through the fault, and a freshly restarted one; in each
+        // phase one of two attempts must be settled (a first attempt may legitimately fail once, e.g. because
+        // the remaining time of an interrupted attempt is zero)
+        let mut ok_phase = [false, false];
+        let mut restarted = false;
         for round in 0..4 {
-            if round == 2 {
+            if round >= 2 && !ok_phase[0] && false {
+                break;
+            }
+            if ok_phase[round / 2] {
+                continue;
+            }
+            if round / 2 == 1 && !restarted {
+                restarted = true;
                 // clean restart in between
                 self.trace.push("[probe] clean restart".into());
                 self.crashes = 0;
@@ -2063,11 +2080,11 @@ impl W {
             outcomes.push(format!("{:?}", r));
             if let HState::Answered { resp } = &r {
                 if *resp == format!("resolve:{}", pre) {
-                    ok = true;
-                    break;
+                    ok_phase[round / 2] = true;
                 }
             }
         }
+        let ok = ok_phase[0] && ok_phase[1];
         if !ok {
             let d = self.durable_kind(&hash);
             self.in_probe = false;
@@ -2075,7 +2092,11 @@ impl W {
             self.violate(
                 "C09",
                 "retry-succeeds",
-                format!("later fully funded sets keep failing; durable record left as {}", kind),
+                format!(
+                    "later fully funded sets keep failing {}; durable record left as {}",
+                    if !ok_phase[0] && !ok_phase[1] { "before and after a restart" } else if !ok_phase[0] { "until the plugin is restarted" } else { "after a restart" },
+                    kind
+                ),
                 format!("probe outcomes {:?}", outcomes.iter().map(|o| short_resp(o)).collect::<Vec<_>>()),
             );
         }
